@@ -719,6 +719,32 @@ def classify_event(stmts, cmdk):
     return "?", vals
 
 
+def _covers(ob, rkey, what, inst, wants):
+    """each timing argument handed to a refresh block must be at least the controller's datasheet-derived cycle count: equal term, provably >=, or >= on a sweep of
+    values (a positive witness value is reported when it is smaller)"""
+    from ..bits import ieval, Unresolved
+    for name, pos, sym in wants:
+        arg = inst.kwargs.get(name, inst.args[pos] if len(inst.args) > pos else None)
+        if arg is None:
+            ob.unknown("%s: argument %s not found" % (what, name))
+            continue
+        if key(arg) == sym or lin_ge(arg, Sym(sym)) is True:
+            continue
+        sup_ = set(support(arg))
+        if sym not in sup_ and any(x_.startswith("settings.timing.") for x_ in sup_):
+            ob.refute(rkey, "Refresher hands %s = %s to the %s: that is another datasheet entry than %s" % (name, key(arg), what, sym), inst.loc)
+            continue
+        try:
+            low = [(v_, ieval(arg, {sym: v_})) for v_ in (1, 2, 3, 4, 5, 8, 16, 44, 64, 128, 260) if ieval(arg, {sym: v_}) < v_]
+        except (Unresolved, Exception) as e:
+            ob.unknown("%s: cannot compare the %s argument %s with %s (%s)" % (what, name, key(arg), sym, e))
+            continue
+        if low:
+            ob.refute(rkey, "Refresher hands %s = %s to the %s: for %s = %d cycles that is only %d, so the following command (the next precharge-all of a postponed sequence, the "
+                      "precharge-all before a ZQCS, or the first command after the release) comes earlier than the datasheet allows" %
+                      (name, key(arg), what, sym, low[-1][0], low[-1][1]), inst.loc)
+
+
 def refresher_timelines(ctx):
     ob = ctx.ob("C03.6", "refresher: precharge-all -> REF spaced by tRP, REF -> done by tRFC; precharge-all -> ZQCS by tRP, ZQCS -> done by "
                          "tZQCS; the executers receive settings.timing.tRP/tRFC/tZQCS; cmd.valid (which holds the bank machines in "
@@ -765,15 +791,13 @@ def refresher_timelines(ctx):
         if ob.need(len(seq) == 1, "Refresher does not instantiate one RefreshSequencer"):
             a = [str(x) for x in seq[0].args]
             ob.instance("Refresher -> RefreshSequencer (zqcs=%s)" % zq, a)
-            if a[1:3] != ["settings.timing.tRP", "settings.timing.tRFC"]:
-                ob.refute("refresher-args", "Refresher passes %s to the sequencer, expected (cmd, tRP, tRFC, ...)" % a, seq[0].loc)
+            _covers(ob, "refresher-args", "sequencer", seq[0], (("trp", 1, "settings.timing.tRP"), ("trfc", 2, "settings.timing.tRFC")))
         if zq:
             ze = [o for o in r.instances_of("ZQCSExecuter") if o.path.count(".") == 0]
             if ob.need(len(ze) == 1, "Refresher (ZQCS configuration) does not instantiate one ZQCSExecuter"):
                 a = [str(x) for x in ze[0].args]
                 ob.instance("Refresher -> ZQCSExecuter", a)
-                if a[1:3] != ["settings.timing.tRP", "settings.timing.tZQCS"]:
-                    ob.refute("zqcs-args", "Refresher passes %s to the ZQCS executer, expected (cmd, tRP, tZQCS)" % a, ze[0].loc)
+                _covers(ob, "zqcs-args", "ZQCS executer", ze[0], (("trp", 1, "settings.timing.tRP"), ("tzqcs", 2, "settings.timing.tZQCS")))
         # cmd.valid dropped / IDLE entered only at done
         fs = r.fsms("")
         if not ob.need(len(fs) == 1, "Refresher FSM not found"):
@@ -809,5 +833,9 @@ def run(ctx):
                           "up and carries the (1 - 1/ratio)*period phase margin (shared with C16.1 / C16.2) - a command phase that differs between read and write mode "
                           "can otherwise bring two row commands up to nphases-1 DRAM clocks closer than counted", 10)
     share(ctx, ob7, "C16", ("C16.1", "C16.2"))
+    ob8 = ctx.ob("C03.8", "the activate-to-activate minimum that the datasheet gives in clocks (tRRD, enforced by an exact counter) keeps its value when the two activates sit on "
+                          "different command slots: the clock-count conversion carries the (ratio-1)-clock phase margin (the activate slot is rdphase-1 in read mode and "
+                          "wrphase-1 in write mode, so it moves when the multiplexer changes direction)", 2)
+    share(ctx, ob8, "C16", ("C16.ckphase",))
     ctx.assume("C16 (cycle counts cover the datasheet nanoseconds incl. phase margin) composes with these gates; tCCD cycles >= burst "
                "duration in controller cycles for the rates each memory type is used with")
